@@ -507,6 +507,7 @@ type Specs struct {
 	Ifaces    map[string]*Contract // "pkg.Iface.Method"
 	Axioms    map[string]*SpecFunc
 	Views     []*Contract // implementation-level contracts (view NAME of FUNC)
+	Guards    map[string]string // pkg.mapVar -> pkg.mutexVar
 }
 
 func NewSpecs() *Specs {
@@ -614,6 +615,17 @@ func (sp *Specs) LoadSpecLines(lines []string, pkg, file string, external bool) 
 				return fail(err)
 			}
 			sp.Lemmas = append(sp.Lemmas, &Lemma{Name: name, Tags: tags, E: e, Text: body, Params: pnames, PTypes: ptypes})
+			cur = nil
+		case "guard":
+			// guard MAPVAR by MUTEXVAR : the package-level map is only accessed with the package-level mutex held (C12)
+			f := strings.Fields(rest)
+			if len(f) != 3 || f[1] != "by" {
+				return fail(fmt.Errorf("expected: guard MAP by MUTEX"))
+			}
+			if sp.Guards == nil {
+				sp.Guards = map[string]string{}
+			}
+			sp.Guards[pkg+"."+f[0]] = pkg + "." + f[2]
 			cur = nil
 		case "global":
 			e, err := ParseExpr(rest)
